@@ -9,16 +9,22 @@
 //!     lock), with "a canonical satisfaction exists from W's assets" (`Spec/SatTable.lean`),
 //!     executing the table's witness with the Script semantics wherever one exists.
 //!   * `J nf`: a lifted miniscript is in C18's normal form.
+//!   * `J liftrefusal`: refusals are what the lifter documents (raw key hashes are refused, a
+//!     timelock refusal needs a path mixing units, no policy for a satisfiable mixed path).
+//!   * `C lifttree` / `J lifttree-sem`: `TapTree::lift` called directly; `trdirect`: `Tr::lift`.
+//!   * `J liftcompile`: `lift(compile(p))` has the truth table of `p` (every compile target).
 use std::panic::{catch_unwind, AssertUnwindSafe};
 
 use miniscript::bitcoin::secp256k1::XOnlyPublicKey;
 use miniscript::bitcoin::PublicKey;
-use miniscript::descriptor::TapTree;
+use miniscript::descriptor::{TapTree, Tr};
+use miniscript::policy::concrete::DescriptorCtx;
 use miniscript::miniscript::types::Base;
 use miniscript::policy::{LiftError, Liftable, Semantic};
 use miniscript::{BareCtx, Descriptor, Legacy, Miniscript, ScriptContext, Segwitv0, Tap};
 
 use crate::ast::{self, CtxK, Node, HK};
+use crate::c18::{self, A, CA};
 use crate::common::{Out, Rng};
 use crate::msops::{self, HKey};
 use crate::with_ctx;
@@ -73,6 +79,7 @@ fn one_ms<Pk: HKey, Ctx: ScriptContext>(out: &mut Out, ctx: CtxK, node: &Node) -
     out.count(&format!("lift {} {}", ctx.name(), if ans.starts_with("ERR:") { ans.as_str() } else { answer_class(&ans) }));
     out.line(&format!("C lift {} {}", ctx.name(), w), &ans);
     out.line(&format!("J liftsem {} {} {}", ctx.name(), w, ans), "ok");
+    out.line(&format!("J liftrefusal {} {} {}", ctx.name(), w, ans), "ok");
     if !ans.starts_with("ERR:") && ans != "PANIC" {
         out.line(&format!("J nf lift:{}:{} {}", ctx.name(), w, ans), "ok");
     }
@@ -182,6 +189,8 @@ fn corpus(ctx: CtxK, thorough: bool) -> Vec<Node> {
         c.push(OrD(bx(Check(bx(PkK(100)))), bx(Check(bx(PkH(101))))));
         c.push(Multi(1, vec![100, 0]));
     }
+    c.extend(late_constants(ctx));
+    c.extend(atom_kinds(ctx));
     // resource-limit boundaries: wide thresholds (ops, scriptSig size, stack items)
     let wide = |n: usize, kk: usize| {
         let mut xs = vec![pk(0)];
@@ -213,6 +222,126 @@ fn corpus(ctx: CtxK, thorough: bool) -> Vec<Node> {
         }
     }
     c
+}
+
+/// Fragments that become TRIVIAL / UNSATISFIABLE only once THEY are normalised (`l:1`, `u:1`,
+/// `l:0`, `and_v(v:1,1)`, `n:` over them, nested), in every child position of every combinator,
+/// thresholds with every k.  (`normalized` must count constant children AFTER normalising them.)
+fn late_constants(ctx: CtxK) -> Vec<Node> {
+    use Node::*;
+    let k = |i: u32| if ctx == CtxK::Tap { 200 + i } else { i };
+    let pk = |i: u32| Check(bx(PkK(k(i))));
+    let v = |n: Node| Verify(bx(n));
+    let l1 = OrI(bx(False), bx(True));           // l:1
+    let u1 = OrI(bx(True), bx(False));           // u:1
+    let l0 = OrI(bx(False), bx(False));          // l:0
+    let tt = AndV(bx(v(True)), bx(True));        // and_v(v:1,1)
+    let consts: Vec<Node> = vec![
+        l1.clone(), u1.clone(), l0.clone(), tt.clone(),
+        ZeroNotEqual(bx(l1.clone())), ZeroNotEqual(bx(u1.clone())), ZeroNotEqual(bx(l0.clone())),
+        OrI(bx(False), bx(l1.clone())), OrI(bx(l0.clone()), bx(u1.clone())), OrI(bx(False), bx(tt.clone())),
+        AndV(bx(v(l1.clone())), bx(True)), AndV(bx(v(True)), bx(l0.clone())),
+        OrD(bx(l0.clone()), bx(True)), OrD(bx(l1.clone()), bx(False)),
+        Thresh(1, vec![l1.clone()]), Thresh(1, vec![l0.clone(), Alt(bx(u1.clone()))]), Thresh(2, vec![l1.clone(), Alt(bx(u1.clone()))]),
+        NonZero(bx(pk(3))),  // a non-constant control with the same wrappers
+    ];
+    let mut out = vec![];
+    for c in &consts {
+        let a = |n: &Node| Alt(bx(n.clone()));
+        out.push(c.clone());
+        // and / or family, both positions
+        out.push(AndB(bx(c.clone()), bx(a(&pk(0))))); out.push(AndB(bx(pk(0)), bx(a(c))));
+        out.push(AndV(bx(v(c.clone())), bx(pk(0)))); out.push(AndV(bx(v(pk(0))), bx(c.clone())));
+        out.push(OrB(bx(c.clone()), bx(a(&pk(0))))); out.push(OrB(bx(pk(0)), bx(a(c))));
+        out.push(OrD(bx(c.clone()), bx(pk(0)))); out.push(OrD(bx(pk(0)), bx(c.clone())));
+        out.push(OrI(bx(c.clone()), bx(pk(0)))); out.push(OrI(bx(pk(0)), bx(c.clone())));
+        out.push(AndV(bx(OrC(bx(c.clone()), bx(v(pk(0))))), bx(True)));
+        out.push(AndV(bx(OrC(bx(pk(0)), bx(v(c.clone())))), bx(pk(1))));
+        // andor, the three positions
+        out.push(AndOr(bx(c.clone()), bx(pk(0)), bx(pk(1))));
+        out.push(AndOr(bx(pk(0)), bx(c.clone()), bx(pk(1))));
+        out.push(AndOr(bx(pk(0)), bx(pk(1)), bx(c.clone())));
+        // thresholds: every position, every k, 2 and 3 children; also two constants at once
+        for n in 2..=3usize {
+            for pos in 0..n {
+                let mut xs = vec![];
+                for i in 0..n {
+                    let ch = if i == pos { c.clone() } else { pk(i as u32) };
+                    xs.push(if i == 0 { ch } else { a(&ch) });
+                }
+                for kk in 1..=n { out.push(Thresh(kk, xs.clone())); }
+            }
+        }
+        for c2 in [&l1, &l0, &u1] {
+            for kk in 1..=3usize { out.push(Thresh(kk, vec![c.clone(), a(c2), a(&pk(0))])); }
+            out.push(AndB(bx(c.clone()), bx(a(c2)))); out.push(OrB(bx(c.clone()), bx(a(c2))));
+            out.push(AndOr(bx(c.clone()), bx(c2.clone()), bx(pk(0)))); out.push(AndOr(bx(pk(0)), bx(c.clone()), bx(c2.clone())));
+        }
+        // one level deeper: the constant appears only after two normalisation steps
+        out.push(Thresh(2, vec![pk(0), a(&Thresh(1, vec![c.clone(), a(&pk(1))])), a(&pk(2))]));
+        out.push(Thresh(1, vec![AndB(bx(c.clone()), bx(a(&l1))), a(&pk(1))]));
+        out.push(AndB(bx(OrB(bx(c.clone()), bx(a(&l0)))), bx(a(&pk(0)))));
+    }
+    out
+}
+
+/// every hash kind, every multi flavour (order-distinguishing), locks of both units including
+/// values with non-consensus bits, raw key hashes - each alone and under and / or / thresh
+fn atom_kinds(ctx: CtxK) -> Vec<Node> {
+    use Node::*;
+    let k = |i: u32| if ctx == CtxK::Tap { 200 + i } else { i };
+    let pk = |i: u32| Check(bx(PkK(k(i))));
+    let v = |n: Node| Verify(bx(n));
+    let ks = |v: &[u32]| -> Vec<u32> { v.iter().map(|i| k(*i)).collect() };
+    let mut atoms: Vec<Node> = vec![];
+    for kind in HK::ALL { for h in 0..2 { atoms.push(Hash(kind, h)); } }
+    if ctx == CtxK::Tap {
+        for kk in 1..=3 { atoms.push(MultiA(kk, ks(&[2, 0, 1]))); atoms.push(SortedMultiA(kk, ks(&[2, 0, 1]))); atoms.push(SortedMultiA(kk, ks(&[1, 2, 0]))); }
+        atoms.push(MultiA(1, ks(&[3]))); atoms.push(SortedMultiA(1, ks(&[3]))); atoms.push(SortedMultiA(2, ks(&[1, 1, 0])));
+    } else {
+        for kk in 1..=3 { atoms.push(Multi(kk, ks(&[2, 0, 1]))); atoms.push(SortedMulti(kk, ks(&[2, 0, 1]))); atoms.push(SortedMulti(kk, ks(&[1, 2, 0]))); }
+        atoms.push(Multi(1, ks(&[3]))); atoms.push(SortedMulti(1, ks(&[3]))); atoms.push(SortedMulti(2, ks(&[1, 1, 0])));
+        if matches!(ctx, CtxK::Bare | CtxK::Legacy) { atoms.push(SortedMulti(1, vec![100, 0])); atoms.push(SortedMulti(2, vec![0, 100, 1])); }
+    }
+    atoms.push(Check(bx(RawPkH(k(0))))); atoms.push(Check(bx(RawPkH(k(1)))));
+    let locks: Vec<Node> = vec![
+        // height / blocks
+        After(1), After(100), After(499_999_999), Older(1), Older(10), Older(65_535),
+        // time
+        After(500_000_000), After(500_000_001), After(2_147_483_647), Older(4_194_305), Older(4_194_304 + 65_535),
+        // non-consensus bits: 16..21 and 23..30 of an older() value; value bits zero
+        Older(65_536 + 5), Older((1 << 20) + 7), Older((1 << 30) + 3), Older(4_194_304 + (1 << 16) + 9), Older(4_194_304 + (1 << 23) + 2),
+        Older(65_536), Older(4_194_304),
+    ];
+    let mut out = vec![];
+    for a in &atoms {
+        out.push(a.clone());
+        let al = Alt(bx(a.clone()));
+        out.push(AndB(bx(pk(0)), bx(al.clone()))); out.push(OrB(bx(pk(0)), bx(al.clone())));
+        out.push(AndV(bx(v(a.clone())), bx(pk(0)))); out.push(OrD(bx(a.clone()), bx(pk(0)))); out.push(OrI(bx(a.clone()), bx(pk(0))));
+        out.push(AndOr(bx(a.clone()), bx(pk(0)), bx(pk(1)))); out.push(AndOr(bx(pk(0)), bx(a.clone()), bx(pk(1))));
+        for kk in 1..=3usize { out.push(Thresh(kk, vec![pk(0), al.clone(), Alt(bx(pk(1)))])); out.push(Thresh(kk, vec![a.clone(), Alt(bx(pk(0))), al.clone()])); }
+    }
+    for l in &locks {
+        out.push(l.clone());
+        out.push(AndV(bx(v(pk(0))), bx(l.clone()))); out.push(AndV(bx(v(l.clone())), bx(pk(0))));
+        out.push(OrI(bx(l.clone()), bx(pk(0)))); out.push(OrD(bx(pk(0)), bx(l.clone())));
+        out.push(AndOr(bx(pk(0)), bx(l.clone()), bx(pk(1))));
+        let dl = Alt(bx(DupIf(bx(v(l.clone())))));
+        for kk in 1..=3usize { out.push(Thresh(kk, vec![pk(0), dl.clone(), Alt(bx(pk(1)))])); }
+        // pairs of locks: AND (refused when the units of one kind differ) and OR (never refused)
+        for l2 in &locks {
+            out.push(AndV(bx(v(l.clone())), bx(l2.clone())));
+            out.push(OrI(bx(l.clone()), bx(l2.clone())));
+            out.push(Thresh(2, vec![pk(0), dl.clone(), Alt(bx(DupIf(bx(v(l2.clone())))))]));
+        }
+    }
+    // a mixed path that exists only through a `0` (structural, not satisfiable)
+    out.push(AndV(bx(v(Older(1))), bx(AndV(bx(v(Older(4_194_305))), bx(False)))));
+    out.push(OrI(bx(pk(0)), bx(AndV(bx(v(Older(1))), bx(AndV(bx(v(Older(4_194_305))), bx(False)))))));
+    out.push(AndOr(bx(pk(0)), bx(AndV(bx(v(After(100))), bx(After(500_000_001)))), bx(pk(1))));
+    out.push(AndOr(bx(OrI(bx(False), bx(False))), bx(AndV(bx(v(After(100))), bx(After(500_000_001)))), bx(pk(1))));
+    out
 }
 
 /* ------------------------------------------------------------------ descriptors */
@@ -248,7 +377,7 @@ fn desc_lines<Pk: HKey>(out: &mut Out, kind: &str, args: &str, d: Result<Descrip
 fn descriptors(out: &mut Out, thorough: bool, rng: &mut Rng, pools: &[(CtxK, Vec<Node>)]) {
     let pool = |c: CtxK| -> &Vec<Node> { &pools.iter().find(|(x, _)| *x == c).unwrap().1 };
     // single-key outputs
-    for k in [0u32, 1, 2, 100] {
+    for k in (0u32..10).chain(100..104) {
         desc_lines(out, "pkh", &k.to_string(), Descriptor::<PublicKey>::new_pkh(ast::full_key(k)));
         desc_lines(out, "wpkh", &k.to_string(), Descriptor::<PublicKey>::new_wpkh(ast::full_key(k)));
         desc_lines(out, "shwpkh", &k.to_string(), Descriptor::<PublicKey>::new_sh_wpkh(ast::full_key(k)));
@@ -304,8 +433,156 @@ fn descriptors(out: &mut Out, thorough: bool, rng: &mut Rng, pools: &[(CtxK, Vec
         let ik = if rng.below(3) == 0 { 200 + rng.below(3) as u32 } else { 209 };
         let args = format!("{} {}", ik, nodes.iter().map(|x| x.wire()).collect::<Vec<_>>().join(" "));
         out.count(&format!("tr leaves={}", n));
+        tree_lines(out, &nodes, &tree);
         desc_lines(out, "tr", &args, Descriptor::<XOnlyPublicKey>::new_tr(ast::xonly_key(ik), Some(tree)));
     }
+    // designated tree shapes: 3..8 (16) leaves, left / right caterpillars and balanced trees,
+    // duplicate leaves, every entry point (TapTree::lift, Tr::lift, Descriptor::lift)
+    let small: Vec<Node> = tp.iter().filter(|n| n.size() <= 8).cloned().collect();
+    let max_n = if thorough { 16 } else { 8 };
+    let reps = if thorough { 12 } else { 3 };
+    for n in 3..=max_n {
+        for kind in 0..3 {
+            for rep in 0..reps {
+                let mut nodes: Vec<Node> = vec![];
+                let mut mss = vec![];
+                while nodes.len() < n {
+                    // duplicates: repeat an earlier leaf every third slot (rep 0: all leaves equal)
+                    let cand = if !nodes.is_empty() && (rep == 0 || nodes.len() % 3 == 2) { nodes[rng.below(nodes.len())].clone() }
+                        else if rng.below(5) == 0 { special[rng.below(special.len())].clone() }
+                        else { small[rng.below(small.len())].clone() };
+                    if let Ok(ms) = ast::to_ms::<XOnlyPublicKey, Tap>(&cand) { nodes.push(cand); mss.push(ms); }
+                }
+                let shape = match kind { 0 => caterpillar(n, true), 1 => caterpillar(n, false), _ => balanced(n) };
+                let tree = match build_tree(&shape, &mss, &mut 0) { Some(t) => t, None => continue };
+                out.count(&format!("tr designated shape={} leaves={}", ["left-comb", "right-comb", "balanced"][kind], n));
+                tree_lines(out, &nodes, &tree);
+                let ik = if rep % 2 == 0 { 209 } else { 200 };
+                let args = format!("{} {}", ik, nodes.iter().map(|x| x.wire()).collect::<Vec<_>>().join(" "));
+                // Tr::lift on the struct itself, then through the Descriptor enum
+                match Tr::new(ast::xonly_key(ik), Some(tree.clone())) {
+                    Ok(tr) => {
+                        let ans = lift_answer(catch_unwind(AssertUnwindSafe(|| tr.lift())));
+                        out.count(&format!("liftdesc trdirect {}", if ans.starts_with("ERR:") { ans.as_str() } else { answer_class(&ans) }));
+                        out.line(&format!("C liftdesc trdirect {}", args), &ans);
+                        out.line(&format!("J liftdesc-sem trdirect {} {}", args, ans), "ok");
+                    }
+                    Err(_) => out.count("skipped descriptor-constructor-refused trdirect"),
+                }
+                desc_lines(out, "tr", &args, Descriptor::<XOnlyPublicKey>::new_tr(ast::xonly_key(ik), Some(tree)));
+            }
+        }
+    }
+}
+
+fn caterpillar(n: usize, left: bool) -> Shape {
+    let mut s = Shape::Leaf;
+    for _ in 1..n { s = if left { Shape::Node(Box::new(s), Box::new(Shape::Leaf)) } else { Shape::Node(Box::new(Shape::Leaf), Box::new(s)) }; }
+    s
+}
+fn balanced(n: usize) -> Shape {
+    if n == 1 { Shape::Leaf } else { Shape::Node(Box::new(balanced(n / 2)), Box::new(balanced(n - n / 2))) }
+}
+
+/// `Liftable for TapTree`, called directly (no internal key, no `Tr::new` validation)
+fn tree_lines(out: &mut Out, nodes: &[Node], tree: &TapTree<XOnlyPublicKey>) {
+    let args = nodes.iter().map(|x| x.wire()).collect::<Vec<_>>().join(" ");
+    let ans = lift_answer(catch_unwind(AssertUnwindSafe(|| tree.lift())));
+    out.count(&format!("lifttree {}", if ans.starts_with("ERR:") { ans.as_str() } else { answer_class(&ans) }));
+    out.line(&format!("C lifttree {}", args), &ans);
+    out.line(&format!("J lifttree-sem {} {}", args, ans), "ok");
+}
+
+/* ------------------------------------------------------------------ lift(compile(p)) */
+
+fn c18_answer(r: std::thread::Result<Result<Semantic<String>, miniscript::Error>>) -> String {
+    match r {
+        Err(_) => "PANIC".into(),
+        Ok(Ok(p)) => c18::sp_wire(&p),
+        Ok(Err(miniscript::Error::LiftError(LiftError::HeightTimelockCombination))) => "ERR:timelock".into(),
+        Ok(Err(miniscript::Error::LiftError(LiftError::BranchExceedResourceLimits))) => "ERR:limits".into(),
+        Ok(Err(miniscript::Error::LiftError(LiftError::RawDescriptorLift))) => "ERR:rawpkh".into(),
+        Ok(Err(_)) => "ERR:other".into(),
+    }
+}
+
+/// small concrete policies over distinct keys (the compiler refuses repeated keys)
+fn rand_cpolicy(rng: &mut Rng, depth: usize, next_key: &mut u32) -> CA {
+    let leaf = |rng: &mut Rng, next_key: &mut u32| -> CA {
+        CA::Leaf(match rng.below(10) {
+            0 => A::Older(10), 1 => A::Older(4_194_305), 2 => A::After(100), 3 => A::After(500_000_001),
+            4 => A::Hash(rng.below(4) as u8, rng.below(2) as u32),
+            _ => { *next_key += 1; A::Key(*next_key - 1) }
+        })
+    };
+    if depth == 0 || rng.below(10) < 3 { return leaf(rng, next_key); }
+    match rng.below(3) {
+        0 => CA::And(vec![rand_cpolicy(rng, depth - 1, next_key), rand_cpolicy(rng, depth - 1, next_key)]),
+        1 => CA::Or(vec![(1 + rng.below(9), rand_cpolicy(rng, depth - 1, next_key)), (1 + rng.below(9), rand_cpolicy(rng, depth - 1, next_key))]),
+        _ => {
+            let n = 2 + rng.below(3);
+            let k = 1 + rng.below(n);
+            CA::Thresh(k, (0..n).map(|_| rand_cpolicy(rng, depth.saturating_sub(2), next_key)).collect())
+        }
+    }
+}
+
+fn compile_lines(out: &mut Out, thorough: bool, rng: &mut Rng) {
+    let mut pols: Vec<CA> = vec![];
+    let k = |i: u32| CA::Leaf(A::Key(i));
+    // designated: the shapes whose compilation uses andor / or_i / thresh / multi
+    pols.push(CA::Or(vec![(9, CA::And(vec![k(0), CA::Leaf(A::Older(10))])), (1, k(1))]));
+    pols.push(CA::Or(vec![(1, CA::And(vec![k(0), k(1)])), (1, CA::And(vec![k(2), CA::Leaf(A::After(100))]))]));
+    pols.push(CA::Thresh(2, vec![k(0), k(1), k(2)]));
+    pols.push(CA::Thresh(2, vec![k(0), k(1), CA::Leaf(A::Older(10))]));
+    pols.push(CA::Thresh(2, vec![k(0), CA::Leaf(A::Hash(0, 0)), CA::And(vec![k(1), CA::Leaf(A::After(500_000_001))])]));
+    pols.push(CA::And(vec![CA::Or(vec![(1, k(0)), (1, k(1))]), CA::Or(vec![(1, k(2)), (3, CA::Leaf(A::Hash(3, 1)))])]));
+    for n in 2..=5u32 { for kk in 1..=n as usize { pols.push(CA::Thresh(kk, (0..n).map(k).collect())); } }
+    pols.push(CA::And(vec![CA::Thresh(2, vec![k(0), k(1), k(2)]), CA::Leaf(A::Older(10))]));
+    pols.push(CA::Or(vec![(1, CA::Thresh(2, vec![k(0), k(1), k(2)])), (1, CA::And(vec![k(3), CA::Leaf(A::After(100))]))]));
+    pols.push(CA::Or(vec![(1, k(0)), (1, CA::Leaf(A::Unsat))]));
+    pols.push(CA::And(vec![k(0), CA::Leaf(A::Triv)]));
+    pols.push(CA::Or(vec![(1, CA::Leaf(A::Older(10))), (1, CA::Leaf(A::Older(4_194_305)))]));
+    for _ in 0..(if thorough { 1500 } else { 320 }) {
+        let mut nk = 0;
+        let p = rand_cpolicy(rng, 3, &mut nk);
+        if nk == 0 || nk > 6 { continue; }
+        pols.push(p);
+    }
+    pols.sort(); pols.dedup();
+    const UNSP: u32 = 99;
+    for c in &pols {
+        let pol = match c18::ca_build(c) { Some(p) => p, None => continue };
+        let pw = c18::ca_wire(c);
+        let mut one = |out: &mut Out, target: &str, r: Option<std::thread::Result<Result<Semantic<String>, miniscript::Error>>>| {
+            match r {
+                None => out.count(&format!("compile {} refused", target.split(':').next().unwrap())),
+                Some(r) => {
+                    let ans = c18_answer(r);
+                    out.count(&format!("liftcompile {} {}", target.split(':').next().unwrap(), if ans.starts_with("ERR:") { ans.as_str() } else { answer_class(&ans) }));
+                    out.line(&format!("J liftcompile {} {} {}", target, pw, ans), "ok");
+                }
+            }
+        };
+        macro_rules! ms_target { ($ctx:ty, $name:expr) => {{
+            let compiled = catch_unwind(AssertUnwindSafe(|| pol.compile::<$ctx>())).ok().and_then(|r| r.ok());
+            one(out, $name, compiled.map(|ms| catch_unwind(AssertUnwindSafe(|| ms.lift()))));
+        }}; }
+        ms_target!(Segwitv0, "segwitv0");
+        ms_target!(Legacy, "legacy");
+        ms_target!(Tap, "tap");
+        ms_target!(BareCtx, "bare");
+        // descriptor entry points: wsh / sh / sh(wsh) / tr (with an unspendable internal key)
+        for (name, dctx) in [("wsh", DescriptorCtx::Wsh), ("sh", DescriptorCtx::Sh), ("shwsh", DescriptorCtx::ShWsh)] {
+            let d = catch_unwind(AssertUnwindSafe(|| pol.compile_to_descriptor::<Segwitv0>(dctx))).ok().and_then(|r| r.ok());
+            let _ = name;
+            one(out, &format!("desc-{}", name), d.map(|d| catch_unwind(AssertUnwindSafe(|| d.lift()))));
+        }
+        let unsp = format!("{:04}", UNSP);
+        let d = catch_unwind(AssertUnwindSafe(|| pol.compile_tr(Some(unsp.clone())))).ok().and_then(|r| r.ok());
+        one(out, &format!("tr:{}", UNSP), d.map(|d| catch_unwind(AssertUnwindSafe(|| d.lift()))));
+    }
+    out.note("compile_policies", pols.len().to_string());
 }
 
 pub fn run(out: &mut Out, thorough: bool, seed: u64) {
@@ -347,6 +624,7 @@ pub fn run(out: &mut Out, thorough: bool, seed: u64) {
         pools.push((ctx, accepted));
     }
     descriptors(out, thorough, &mut rng, &pools);
+    compile_lines(out, thorough, &mut rng);
     out.note("distinct_nontrivial", n_frag.to_string());
     out.note("domain", "B-typed fragments of every context (enumerated depth 3/4 + richer alphabet depth 2, random to ~60 nodes, corpus: andor arms, constants in or_i/and_v/thresh, nested thresholds every k, repeated keys, sorted/unsorted multi, both lock units in AND and OR position, raw pkh, resource-limit boundaries) and descriptors (pkh, wpkh, sh(wpkh), bare, wsh, sh, sh(wsh), tr with 0-4(6) leaves in random tree shapes incl. constant/refused leaves and a repeated internal key); judged over all subsets of <=5 keys and <=3 preimages x (nLockTime,nSequence) on both sides of every lock".into());
     std::panic::set_hook(hook);
